@@ -113,11 +113,28 @@ let destroy_obj o =
   let holds = (!lst.objs (n o)).o_raw <> None in
   if holds then incr dcount;
   let t = n (1 + (!dcount mod 3)) in
+  let before = !lst.lbase and held_raw = (!lst.objs (n o)).o_raw in
   firel (LDestroy (t, n o));
   if holds then begin
     firel (LB (DLoad t)); firel (LB (DLink t));
     if !dcount mod 3 = 0 then begin firel (LB (DCas (t, true))); firel (LB (DLoad t)); firel (LB (DLink t)) end;
-    firel (LB (DCas (t, false)))
+    firel (LB (DCas (t, false)));
+    (* the GENERATED ~DataRow (Gen_DataRow.destroy, translated from the real destructor) run on the memory of the state before the
+       push must give the memory of the state after it: head and every link word in use *)
+    (match held_raw with
+     | Some r ->
+         let zi k = z_of_int k in
+         let encp = function None -> zi 0 | Some q -> zi (i q + 2) in
+         let mem_of (s : state) a = let k = int_of_z a in if k = 1 then encp s.head else if k >= 2 then encp (s.link (n (k - 2))) else zi 0 in
+         let sp k = (!dcount mod 3 = 0) && i k = 9 in      (* one spurious failure on every third push *)
+         (match Gen_DataRow.destroy sp (n 10) (zi (i r + 2)) (zi 1) (zi 1) (mem_of before) with
+          | GenPrelude.Ok (_, m') ->
+              let after = !lst.lbase in
+              for k = 1 to !maxrow + 2 do
+                if int_of_z (m' (zi k)) <> int_of_z (mem_of after (zi k)) then raise (Stuck "generated-destructor-differs-from-model")
+              done
+          | _ -> raise (Stuck "generated-destructor-stuck"))
+     | None -> ())
   end;
   free_ids := o :: !free_ids
 let move_assign a b = let tmp = fresh () in firel (LMoveCtor (n tmp, n b)); firel (LSwap (n tmp, n a)); destroy_obj tmp
@@ -134,6 +151,7 @@ let std_swap a b = let tmp = fresh () in firel (LMoveCtor (n tmp, n a)); move_as
 let show_obj o = let ob = !lst.objs (n o) in
   (match ob.o_raw with None -> "-" | Some r -> string_of_int (i r)) ^ (if ob.o_fl then ":T" else ":0")
 let extra : int option ref = ref None
+let tst = ref TreiberTables.tinit
 let observe_l () =
   observe () ^ "|ro=" ^ String.concat "," (Stdlib.List.map show_obj (!det @ (match !extra with Some o -> [o] | None -> [])))
 
@@ -171,13 +189,25 @@ let event_l ev =
   | 'C' -> ldrain (); Stdlib.List.iter (fun r -> firel (LB (ORemove (n r, None)))) (ids_of arg)
   | 'S' -> firel (LB (Scribble (n (int_of_string arg), Some (n 12345))))
   | 'Z' -> if !lst.lbase.head <> None then ldrain ()
+  | 'V' -> (* the table object is moved: TreiberTables.stept; the layered state must not change (frame) *)
+           let firet tl_ = (match TreiberTables.stept !tst tl_ with
+                            | Some s -> if s.TreiberTables.tl != !tst.TreiberTables.tl then raise (Stuck "table-move-changed-rows"); tst := s
+                            | None -> raise (Stuck "table-move")) in
+           tst := { !tst with TreiberTables.tl = !lst };
+           if arg = "1" then begin
+             firet (TreiberTables.TMoveCtor (n 1, n 0));
+             if not (!tst.TreiberTables.tab (n 0) = None && !tst.TreiberTables.tab (n 1) = Some (n 0)) then raise (Stuck "table-owner")
+           end else if arg = "0" then begin
+             firet (TreiberTables.TMoveCtor (n 2, n 1)); firet (TreiberTables.TSwap (n 2, n 0));
+             if not (!tst.TreiberTables.tab (n 0) = Some (n 0) && !tst.TreiberTables.tab (n 1) = None && !tst.TreiberTables.tab (n 2) = None) then raise (Stuck "table-owner")
+           end else raise (Stuck "moved-from table still owns a crew")
   | '-' -> ()
   | _ -> raise (Stuck "unknown-event")
 
 let same_set a b = Stdlib.List.sort compare a = Stdlib.List.sort compare b
 
 let run_seq evs =
-  st := init; lst := linit; det := []; next_obj := 0; free_ids := []; maxrow := 0; fired := 0; extra := None; dcount := 0; Hashtbl.reset known;
+  st := init; lst := linit; tst := TreiberTables.tinit; det := []; next_obj := 0; free_ids := []; maxrow := 0; fired := 0; extra := None; dcount := 0; Hashtbl.reset known;
   let buf = Buffer.create 256 in
   let stuck = ref false in
   Stdlib.List.iter (fun ev ->
